@@ -129,6 +129,27 @@ def r17_3(ctx):
         for mode, rep in lst:
             ok = rep is not None and rep.startswith("&") and rep.endswith(";") and (ents.get(rep[1:]) == c or (rep.startswith("&#") and chr(int(rep[2:-1])) == c))
             ctx.ob("R17.3", "reversible/%r" % c, ok, "%r -> %r resolves back through the tokenizer's entity table / numeric reference" % (c, rep))
+    # a shortcut around the table (a path that writes the whole text at once) must be guarded by the absence of every character
+    # the table escapes; a shortcut whose guard cannot be read is left to the reference comparison (R17.5)
+    key, wpcs = nfq.cells(ctx, AREA, "::write_to_buf_escaped")
+    need = {c for c in table}
+    k = 0
+    for pc in nfq.feasible(wpcs):
+        inloop = False
+        for a, args in pc["actions"]:
+            if a.startswith("loop-begin") and "p2.chars()" in a:
+                inloop = True
+            if (".write_" in a or a.endswith(".write")) and (not inloop) and any("p2" in str(x) for x in args):
+                k += 1
+                gtxt = " ".join(pc["guards"])
+                lits = set(re.findall(r"'(\\.|[^'\\])'", gtxt))
+                lits = {bytes(x, "utf-8").decode("unicode_escape") if x.startswith("\\") else x for x in lits}
+                if not lits:
+                    continue
+                missing = sorted(need - lits)
+                ctx.ob("R17.3", "whole-text-shortcut-tests-every-escaped-character", not missing,
+                       "the shortcut is taken only when none of %s occurs" % sorted(need) if not missing else
+                       "write_to_buf_escaped writes the whole text unescaped when none of %s occurs, but the table also escapes %s" % (sorted(lits), missing), "xml5ever serialize write_to_buf_escaped")
     # everything written inside a quoted attribute-like context is escaped
     key, pcs = nfq.cells(ctx, AREA, "[Serializer]::start_elem")
     bad = None
